@@ -76,7 +76,7 @@ _CHECK = {}
 
 
 def _alarm(signum, frame):
-    raise HarnessTimeout()
+    raise HarnessTimeout("".join(traceback.format_stack(frame, limit=14))[-2500:])
 
 
 def _run_guarded(mod, tape, tier, prop):
@@ -116,8 +116,8 @@ def work_chunk(args):
         tape = Tape(seed=seed)
         try:
             res = _run_guarded(mod, tape, tier, prop)
-        except HarnessTimeout:
-            out["errors"].append({"seed": seed, "error": "run exceeded %ds wall limit" % RUN_WALL_LIMIT})
+        except HarnessTimeout as e:
+            out["errors"].append({"seed": seed, "error": "run exceeded %ds wall limit; stack at the alarm:\n%s" % (RUN_WALL_LIMIT, e)})
             continue
         except Exception:
             out["errors"].append({"seed": seed, "error": traceback.format_exc()[-3000:]})
